@@ -62,6 +62,16 @@ CHECKS = {
   note=TRUST + 'Recogniser checks exactly the items the property lists (8-bit bytes in quoted strings are not flagged). '
        'Outside: whole-session streams, structures produced inside the email package.',
   technique='symbolic execution of the real serialisers with z3, independent grammar recogniser as oracle'),
+ 'C09': dict(
+  text='Bounded symbolic execution of the real login path (ConnectionState._login/do_login/do_authenticate/capability/do_greeting/'
+       'do_starttls, dict Login.authenticate/authorize, Identity.get/new_session, UserMetadata.compare_*, pysasl PlainCredentials) with '
+       '<= 2 stored users whose names, passwords and admin role are symbolic and presented authcid/secret/authzid symbolic: the session '
+       'is set iff some stored user matches authcid and secret and (authzid = authcid or that user is admin) and the authzid user exists, '
+       'its owner is authzid, LOGIN is refused exactly when LOGINDISABLED is advertised (TLS on/off, local/remote peer, after STARTTLS), '
+       'and failed or credential-less attempts leave the connection unauthenticated; one and two consecutive attempts.',
+  note=TRUST + 'Stubs: password_prep = identity, hash = cleartext compare, secrets.compare_digest = equality, the SASL mechanism hands '
+       'arbitrary credentials to do_authenticate. Outside: saslprep, hashing, mechanism message parsing, maildir/redis user stores.',
+  technique='symbolic execution of the real login code with z3 over symbolic users and credentials'),
  'C10': dict(
   text='Reference-model equivalence by bounded symbolic execution: programs of <= 2 (quick) / 3 (thorough) message commands '
        '(STORE/UID STORE with every mode, silent, EXPUNGE, UID EXPUNGE, FETCH BODY[]/BODY.PEEK[], COPY, MOVE, APPEND, CLOSE) '
@@ -78,6 +88,15 @@ CHECKS = {
        'after the program equals the dump before, mutators answer NO, CLOSE answers OK and deselects.',
   note=TRUST + 'One examining session; COPY into another writable mailbox is allowed. Outside: maildir, concurrent writers (C02).',
   technique='symbolic execution of the real session layer with z3, before/after store comparison'),
+ 'C13': dict(
+  text='SEARCH / UID SEARCH programs through the real do_search -> search_mailbox -> SearchCriteriaSet/criteria classes on the dict backend: '
+       'every flag/sequence-set/UID-set/size/internal-date key alone and negated, OR / top-level conjunction / keyset with NOT over one '
+       'representative per key family (depth 2 quick, 3 thorough), on views of 3-4 messages with differing flags, sizes and dates, '
+       'including a message expunged elsewhere but not yet announced; set numbers, sizes and dates are symbolic integers; obligation per '
+       '(program, message): returned <=> RFC 3501 6.4.4 semantics, proved by z3; no EXPUNGE in reply to non-UID SEARCH.',
+  note=TRUST + 'Flag assignments are enumerated, operands are symbolic. Outside: BODY/TEXT/HEADER/address/subject and sent-date keys '
+       '(email package), two top-level keys of the same family (told apart by hash(SearchKey)).',
+  technique='symbolic execution of the real search code with z3 against RFC semantics as a z3 term'),
  'C17': dict(
   text='Bounded model checking of histories (<= 3 quick / 4 thorough operations: SELECT, EXAMINE, CLOSE, APPEND, APPEND with a '
        '\\Recent flag, APPEND elsewhere, COPY into the mailbox, STORE +/-/= \\Recent, NOOP) by 2-3 sessions on the real session '
